@@ -108,7 +108,7 @@ def exhaustive(ctx):
     for L in range(1, depth + 1):
         for seq in itertools.product(alpha, repeat=L):
             for ci, cyc in enumerate(cycles):
-                if ci == 2 and L > 2:
+                if (ci == 2 and L > 2) or (ci == 1 and L > 3):
                     continue
                 first = ("A", (n % 7) != 3, 6, 0 if n % 5 else 2, True)
                 clock = LazyClock(u, None, cycle=cyc)
@@ -277,15 +277,21 @@ def thread_prog(rng, u, ids, length, nonneg):
     return ops
 
 
-def scheduled_run(ctx, nthreads, maxlen, fixed=None):
+def scheduled_run(ctx, nthreads, maxlen, fixed=None, force=None):
     """real threads on one real Progress, one step at a time; `fixed` = (setup, progs, choices) replays"""
     rng = ctx.rng
     A, T = rng.choice([(1, 1), (2, 4), (4, 8)])
-    u = lp.Units(A, T)
     period = rng.choice([30 * T, 30 * T, 4, 1])
+    incs = rng.choice([[1], [0, 1], [1, 2, 5]])
+    if force:
+        A, T, period = force["A"], force["T"], force["period"]
+    u = lp.Units(A, T)
     sched = lp.Sched()
     lock = lp.LockProxy(sched)
-    clock = LazyClock(u, rng.choice([[1], [0, 1], [1, 2, 5]]), rng=rng)
+    clock = LazyClock(u, incs, rng=rng)
+    if force:
+        r = force["clock"]
+        clock = LazyClock(u, None, cycle=[b - a for a, b in zip([0] + r, r)] + [1] * 1000)
     clock.hook = lambda: sched.yield_point("r") if (sched.current() is not None and not lock.held()) else None
     p = lp.make_progress(clock, period, u, lock=lock)
     import rich.progress as rp
@@ -433,12 +439,15 @@ def track_seq(ctx, n, mode, existing, setup_ops):
         return
     heads.append(f"ok@{clock.k}@{'1' if p.finished else '0'}#" + lp.dump(p, u))
     tid = task_id if existing else len([o for o in setup_ops if o[0] == "A"])
-    t = next(x for x in p.tasks if x.id == tid)
+    t = next((x for x in p.tasks if x.id == tid), None)
+    if t is None:
+        ctx.check(False, "track:count", (mode, n), "the tracked task does not exist after track()")
+        return
     ctx.check(out == items, "track:yields", (mode, n), f"yielded {out!r}, sequence was {items!r}")
     if not existing:
         ctx.check(t.completed == n, "track:count", (mode, n), f"fresh task completed={t.completed!r} after {n} elements")
-    else:
-        base = lp.to_units(t.completed, 1)  # noqa: F841 - existing task: count adds to what was there (not in the statement)
+    else:  # existing task (completed=2 before): the count adds to what was there
+        ctx.check(t.completed == 2 + n, "track:count-existing", (mode, n), f"existing task completed={t.completed!r} after {n} more elements")
     tot = total if total is not None else n
     ctx.case("pg_track", [cfg_str(60, 2), clock.enc(), ";".join(lp.enc_op(o) + " n" for o in setup_ops), "seq",
                           "_" if task_id is None else task_id, tot, n, ""],
@@ -632,10 +641,10 @@ def run(ctx):
     percentages(ctx)
     n_ex = exhaustive(ctx)
     ctx.note("exhaustive-histories", n_ex)
-    random_histories(ctx, 2500 if quick else 60000)
+    random_histories(ctx, 2500 if quick else 40000)
     long_history(ctx, 2 if quick else 8)
     f21_directed(ctx)
-    for i in range(1500 if quick else 40000):
+    for i in range(1500 if quick else 25000):
         nt = ctx.rng.choice([2, 2, 3, 3, 4] if i % 8 else [5, 6, 8])
         scheduled_run(ctx, nt, 3 if nt <= 4 else 2)
         if i % 500 == 499:
@@ -668,10 +677,36 @@ def run(ctx):
     )
 
 
+def dec_op(s):
+    t = s.split(" ")
+    b = lambda x: None if x == "_" else x == "1"
+    i = lambda x: None if x == "_" else int(x)
+    k = t[0]
+    if k == "A":
+        return ("A", b(t[1]), int(t[2]), int(t[3]), b(t[4]))
+    if k in "SPD":
+        return (k, int(t[1]))
+    if k == "U":
+        return ("U", int(t[1]), i(t[2]), i(t[3]), i(t[4]), b(t[5]), b(t[6]))
+    if k == "R":
+        return ("R", int(t[1]), b(t[2]), i(t[3]), int(t[4]), b(t[5]))
+    return ("V", int(t[1]), int(t[2]))
+
+
 def replay(ctx, case):
+    """re-run a recorded thread schedule on the real code (other sites: re-run the seeded check)"""
     print("site:", case.get("site"))
-    print("input:", case.get("input"))
     print("what:", case.get("what"))
+    inp = case.get("input")
+    if str(case.get("site", "")).startswith("threads") and isinstance(inp, dict) and "schedule" in inp:
+        setup = [dec_op(o) for o in inp["setup"]]
+        progs = [[dec_op(o) for o in pr] for pr in inp["threads"]]
+        script = [int(e[1:]) for e in inp["schedule"].split(" ") if e]
+        scheduled_run(ctx, len(progs), 0, fixed=(setup, progs, script), force=inp)
+        for f in ctx.failures:
+            print("FAILS AGAIN:", f["site"], "-", f["what"])
+        return not ctx.failures
+    print("input:", inp)
     print("re-run `./check C12` to re-evaluate (the generators are seeded: VERIF_SEED=%s)" % case.get("seed"))
     return False
 
